@@ -168,6 +168,7 @@ func decodeUnmarshalerContext(ctx *RuntimeContext, buf []byte, cursor, depth int
 }
 
 func decodeStreamTextUnmarshaler(s *Stream, depth int64, unmarshaler encoding.TextUnmarshaler, p unsafe.Pointer) error {
+	s.skipWhiteSpace()
 	start := s.cursor
 	if err := s.skipValue(depth); err != nil {
 		return err
@@ -180,6 +181,10 @@ func decodeStreamTextUnmarshaler(s *Stream, depth int64, unmarshaler encoding.Te
 
 	dst := make([]byte, len(src))
 	copy(dst, src)
+	if text, ok := unquoteBytes(dst); ok {
+		// like the buffer decoder: the method gets the text of the string, not the literal
+		dst = text
+	}
 
 	if err := unmarshaler.UnmarshalText(dst); err != nil {
 		return err
